@@ -90,7 +90,7 @@ func (s *muxServer) reply(t byte, tag uint16, body []byte) []byte {
 
 // runKmux: concurrent client calls, replies in every order / random order, faults.
 func runKmux(r *rng, n int) {
-	for i := 0; i < n; i++ {
+	for i := 0; i < n && !tooManyHangs(); i++ {
 		batch := 2 + r.intn(3)
 		if r.chance(1, 5) {
 			batch = 8 + r.intn(24)
@@ -203,6 +203,7 @@ func runKmux(r *rng, n int) {
 		case <-wdone:
 		case <-time.After(5 * time.Second):
 			hung = 1
+			noteHang()
 			srv.c.Close()
 			<-wdone
 		}
